@@ -261,7 +261,8 @@ def gen_case(rng):
                       'preds': gen_preds(rng, elems)})
     r = rng.random()
     if r < 0.82:
-        elems, star = rng.choice(structs)
+        statics = [st for st, d in zip(structs, decls) if d['static']]
+        elems, star = rng.choice(statics) if statics and rng.random() < 0.4 else rng.choice(structs)
         s, _ = instantiate(rng, elems, star)
         ne = rng.choice([0, 0, 0, 0, 0, 1, 1, 1, 1, 2])
         for _ in range(ne):
@@ -298,7 +299,13 @@ def gen_history(rng, case, structs):
     """Earlier dispatches over the same mapper/app; mostly the SAME path as the final dispatch, after which the match
     dictionary that was handed out is edited in place."""
     hist = []
+    names = [d['name'] for d in case['decls']]
     for _ in range(rng.choice([1, 1, 2, 3])):
+        if rng.random() < 0.35:
+            r = rng.random()
+            hist.append({'list': ['routes', 1 if rng.random() < 0.7 else 0] if r < 0.6 else ['has'] if r < 0.7
+                         else ['get', rng.choice(names + ['nope'])]})
+            continue
         if rng.random() < 0.7:
             path = case['path']
         else:
@@ -345,7 +352,8 @@ def add_prefixes(rng, case):
             new += '/'
         case['path'] = new.encode('utf-8').decode('latin-1')
         for h in case.get('history') or []:
-            h['path'] = case['path']
+            if 'list' not in h:
+                h['path'] = case['path']
 
 
 def router_ok(case):
@@ -400,6 +408,17 @@ def targeted(rng):
                 c = _case([p], b, mode=mode)
                 c['history'] = [{'path': c['path'], 'method': 'GET', 'mutate': ops}]
                 yield c
+    # listings on the long-lived mapper before a dispatch (static routes must stay unmatchable)
+    for mode in ('mapper', 'router'):
+        for ops in ([['routes', 1]], [['routes', 1], ['routes', 1]], [['routes', 0], ['has'], ['get', 'r0']]):
+            c = _case(['/x', '/gen/{a}', '/*all'], '/gen/1', mode=mode)
+            c['decls'][1]['static'] = 1
+            c['history'] = [{'list': op} for op in ops] + [{'path': c['path'], 'method': 'GET', 'mutate': []}]
+            yield c
+            c2 = _case(['/s/{a}'], '/s/1', mode=mode)
+            c2['decls'][0]['static'] = 1
+            c2['history'] = [{'list': op} for op in ops]
+            yield c2
     # route prefixes (Configurator.include): trailing slash of the declared pattern, nested prefixes, inherit_slash
     for levels in (['/api'], ['api/'], ['/api', 'v2'], ['/']):
         for pats in (['/items/', '/items'], ['/items', '/items/'], ['/{name}/', '/{name}'], ['items/', '/*rest'], ['', '/x']):
